@@ -505,9 +505,27 @@ func (g *gen) addKeyword(s *S, d int, p pos) {
 		s.HasProps = true
 		s.Props = nil
 		withAddl := r.Chance(1, 2)
+		// properties + patternProperties + a schema for additionalProperties in one object:
+		// the exclusion pattern of additionalProperties is built from both
+		if !s.HasPProps && r.Chance(1, 3) {
+			s.HasPProps = true
+			s.PProps = nil
+			seen := map[string]bool{}
+			for i := r.Intn(2) + 1; i > 0; i-- {
+				pt := common.Pick(r, patPool)
+				if !seen[pt] {
+					seen[pt] = true
+					s.PProps = append(s.PProps, PS{pt, g.schema(d-1, posPProp)})
+				}
+			}
+			withAddl = r.Chance(3, 4)
+		}
 		var addl *S
 		if withAddl {
 			addl = g.addl(d)
+			if s.HasPProps && addl.IsBool && r.Chance(2, 3) {
+				addl = g.schema(d-1, posAddl)
+			}
 		}
 		// a property value that a sibling pattern constraint can also reach
 		// (patternProperties of the same object) is generated without close
